@@ -1,0 +1,157 @@
+//go:build verif
+// +build verif
+
+// Contracts for the deductive verifier in /verif (DVC).  This file contains
+// comments only: it adds no code and is compiled only with the build tag verif.
+
+package decimal
+
+//@ func $globals
+//@   requires decKaratsubaThreshold >= 2 && decBasicSqrThreshold >= 1 && decKaratsubaSqrThreshold >= 2
+
+// ---------------------------------------------------------------------------
+// K: word kernels (arith.go, dec_arith.go)
+
+//@ func mulAddWWW_g(x, y, c Word) (z1, z0 Word)
+//@   ensures[value,C07] z1*_B + z0 == x*y + c
+
+//@ func divWW_g(u1, u0, v Word) (q, r Word)
+//@   requires[nooverflow] u1 < v
+//@   ensures[value,C07] q*v + r == u1*_B + u0 && r < v
+
+//@ func add10WWW_g(x, y, cIn Word) (s, c Word)
+//@   requires[words] x < B && y < B && cIn <= 1
+//@   ensures[value,C07] s + c*B == x + y + cIn && s < B && c <= 1
+
+//@ func sub10WWW_g(x, y, b Word) (d, c Word)
+//@   requires[words] x < B && y < B && b <= 1
+//@   ensures[value,C07] d == x - y - b + c*B && d < B && c <= 1
+
+// ---------------------------------------------------------------------------
+// Ghost vocabulary.  V(m, lo, hi) is the little-endian base-B value of the words
+// m[lo..hi); P(k) = B^k.  The two defining equations below are the trusted core;
+// every other lemma is proved from them (induction where stated).
+
+//@ lemma Vdef(m array, lo, hi)
+//@   requires lo <= hi
+//@   ensures V(m, lo, hi+1) == V(m, lo, hi) + m[hi]*P(hi-lo)
+//@   axiom
+
+//@ lemma Pdef(k)
+//@   requires k >= 0
+//@   ensures P(k+1) == B*P(k) && P(k) >= 1
+//@   axiom
+
+//@ lemma P_add(a, b)
+//@   requires a >= 0 && b >= 0
+//@   ensures P(a+b) == P(a)*P(b)
+//@   induction b from 0
+//@   use Pdef(a+b-1)
+//@   use Pdef(b-1)
+
+//@ lemma V_bounds(m array, lo, hi)
+//@   requires lo <= hi
+//@   requires forall k in lo..hi :: 0 <= m[k] && m[k] < B
+//@   ensures 0 <= V(m, lo, hi) && V(m, lo, hi) < P(hi-lo)
+//@   induction hi from lo
+//@   use Vdef(m, lo, hi-1)
+//@   use Pdef(hi-1-lo)
+
+//@ lemma V_split(m array, lo, mid, hi)
+//@   requires lo <= mid && mid <= hi
+//@   ensures V(m, lo, hi) == V(m, lo, mid) + P(mid-lo)*V(m, mid, hi)
+//@   induction hi from mid
+//@   use Vdef(m, lo, hi-1)
+//@   use Vdef(m, mid, hi-1)
+//@   use P_add(mid-lo, hi-1-mid)
+
+//@ lemma V_eq(m array, n array, lo, hi)
+//@   requires lo <= hi
+//@   requires forall k in lo..hi :: m[k] == n[k]
+//@   ensures V(m, lo, hi) == V(n, lo, hi)
+//@   induction hi from lo
+//@   use Vdef(m, lo, hi-1)
+//@   use Vdef(n, lo, hi-1)
+
+// A destination may be the source itself (same base) or disjoint from it.
+//@ define inplace_or_disjoint(z, x) = samebase(z, x) || disjoint(z, x[:len(z)])
+
+//@ func add10VV_g(z, x, y []Word) (c Word)
+//@   requires[len]     len(x) >= len(z) && len(y) >= len(z)
+//@   requires[words]   wordsok(x[:len(z)]) && wordsok(y[:len(z)])
+//@   requires[overlap] inplace_or_disjoint(z, x) && inplace_or_disjoint(z, y)
+//@   modifies mem(z)
+//@   ensures[carry,C07] c <= 1
+//@   ensures[words,C06,C07,C08] wordsok(z)
+//@   ensures[value,C01,C06,C07] V(z) + c*P(len(z)) == old(V(x[:len(z)])) + old(V(y[:len(z)]))
+//@   loop 1 invariant[range] 0 <= i && i <= len(z) && c <= 1
+//@   loop 1 invariant[words] wordsok(z[:i])
+//@   loop 1 invariant[value] V(z[:i]) + c*P(i) == old(V(x[:i])) + old(V(y[:i]))
+//@   loop 1 invariant[rest]  forall k in i..len(z) :: x[k] == old(x[k]) && y[k] == old(y[k])
+//@   loop 1 modifies mem(z)
+//@   loop 1 hint Vdef(z, 0, i-1)
+//@   loop 1 hint Vdef(old(x), 0, i-1)
+//@   loop 1 hint Vdef(old(y), 0, i-1)
+//@   loop 1 hint Pdef(i-1)
+
+//@ func sub10VV_g(z, x, y []Word) (c Word)
+//@   requires[len]     len(x) >= len(z) && len(y) >= len(z)
+//@   requires[words]   wordsok(x[:len(z)]) && wordsok(y[:len(z)])
+//@   requires[overlap] inplace_or_disjoint(z, x) && inplace_or_disjoint(z, y)
+//@   modifies mem(z)
+//@   ensures[carry,C07] c <= 1
+//@   ensures[words,C06,C07,C08] wordsok(z)
+//@   ensures[value,C01,C06,C07] V(z) + old(V(y[:len(z)])) == old(V(x[:len(z)])) + c*P(len(z))
+//@   loop 1 invariant[range] 0 <= i && i <= len(z) && c <= 1
+//@   loop 1 invariant[words] wordsok(z[:i])
+//@   loop 1 invariant[value] V(z[:i]) + old(V(y[:i])) == old(V(x[:i])) + c*P(i)
+//@   loop 1 invariant[rest]  forall k in i..len(z) :: x[k] == old(x[k]) && y[k] == old(y[k])
+//@   loop 1 modifies mem(z)
+//@   loop 1 hint Vdef(z, 0, i-1)
+//@   loop 1 hint Vdef(old(x), 0, i-1)
+//@   loop 1 hint Vdef(old(y), 0, i-1)
+//@   loop 1 hint Pdef(i-1)
+
+//@ func pow10(n uint) Word
+//@   requires[range] n <= 19
+//@   ensures[value] result == p10(n)
+
+//@ func decDigits64(x uint64) (n uint)
+//@   ensures[zero] x == 0 <==> n == 0
+//@   ensures[range] n <= 20
+//@   ensures[value] x > 0 ==> p10(n-1) <= x && (n == 20 || x < p10(n))
+
+//@ func decDigits(x uint) (n uint)
+//@   inline
+
+//@ func nlz10(x Word) uint
+//@   requires[word] x < B
+//@   ensures[range] result <= 19
+//@   ensures[zero] x == 0 <==> result == 19
+//@   ensures[value] x > 0 ==> p10(18-result) <= x && x < p10(19-result)
+
+//@ func trailingZeroDigits(n uint) uint
+//@   requires[nonzero] n != 0
+//@   ensures[range] result <= 19
+//@   ensures[value] n % p10(result) == 0 && n % p10(result+1) != 0
+
+//@ func mul10WW_g(x, y Word) (z1, z0 Word)
+//@   requires[words] x < B && y < B
+//@   ensures[value,C07] z1*B + z0 == x*y && z0 < B && z1 < B
+
+//@ func div10W_g(n1, n0 Word) (q, r Word)
+//@   requires[nooverflow] n1 < B
+//@   ensures[value,C07] q*B + r == n1*_B + n0 && r < B
+
+//@ func div10W(n1, n0 Word) (q, r Word)
+//@   requires[nooverflow] n1 < B
+//@   ensures[value,C07] q*B + r == n1*_B + n0 && r < B
+//@   status assumed assembly routine; same contract as div10W_g (see C07)
+
+//@ func div10WW_g(u1, u0, v Word) (q, r Word)
+//@   requires[nooverflow] u1 < v && v <= B && u0 < B
+//@   ensures[value,C07] q*v + r == u1*B + u0 && r < v && q < B
+
+//@ func mulAdd10WWW_g(x, y, c Word) (hi, lo Word)
+//@   requires[words] x < B && y < B && c < B
+//@   ensures[value,C07] hi*B + lo == x*y + c && lo < B && hi < B
